@@ -291,6 +291,13 @@ def step (line : String) : String :=
         s!"ok {showBits r.bits} {showSpans r.spans} iters={r.iters} syms={syms}"
       | .error msgs => s!"err {msgs.headD "?"}"
     | _, _, _ => "bad-op"
+  | "mdiff" :: "asm" :: fields =>
+    match parseAsmFields fields with
+    | some (opts, files, roots) =>
+      match matcherDiff opts files roots with
+      | .ok (n, g) => s!"mdiff {n} {g}"
+      | .error m => s!"err {m.headD "?"}"
+    | none => "bad-op"
   | "cert" :: sy :: ins :: dat :: res :: ali :: adr :: "asm" :: fields =>
     match parseAsmFields fields with
     | some (opts, files, roots) =>
